@@ -1,14 +1,8 @@
 // ---- farith_add_stubs.rs: helpers of float/src/add.rs that are seen through TRUSTED contracts (each read off the real
 // function).  Needs round_prelude.rs, round_int_stubs.rs, round_int_addsub_stubs.rs, round_float_repr.rs, conv_fbig_stubs.rs.
 
-/// utils::shl_digits_in_place: "*value *= B^exp" (same arms as shl_digits)
-#[verifier::external_body]
-pub fn shl_digits_in_place<const B: Word>(value: &mut IBig, exp: usize)
-    requires B >= 2,
-        // resource limit: exponent overflow is a documented panic (C16), not modelled (`exp * log2(B)` in usize, utils.rs:45)
-        pos_room(exp as int),
-    ensures final(value).v() == old(value).v() * ipow(B as int, exp as nat)
-{ unimplemented!() }
+// utils::shl_digits_in_place: PROVED in unit float_digit_utils; contract from its annotated copy
+//@@ SIG float/utils3/shl_digits_in_place.rs
 
 impl IBig {
     /// integer/src/sign.rs `IBig::signum`: ONE / ZERO / NEG_ONE
